@@ -33,6 +33,9 @@ var specs = []Spec{
 }
 
 func init() {
+	specs = append(specs, Spec{ID: "C13", Level: "exploration", MinDistinct: 50, Engines: []Engine{
+		{Name: "seq", Pkg: "./mon/c13", Procs: 1},
+	}})
 	specs = append(specs, Spec{ID: "C16", Level: "exploration", MinDistinct: 50, Engines: []Engine{
 		{Name: "seq", Pkg: "./mon/c16", Procs: 1},
 	}})
